@@ -1,6 +1,7 @@
 package main
 
 import (
+	"bytes"
 	"container/list"
 	"context"
 	"fmt"
@@ -161,11 +162,12 @@ type outcome struct {
 func runCell(domain string, cell int, input []byte) outcome {
 	var err error
 	var f func()
+	var ar *arena
 	switch domain {
 	case "io":
-		t := dests[cell/len(ioVariants)]
 		v := cell % len(ioVariants)
-		p := reflect.New(t).Interface()
+		ar = arenaFor(cell / len(ioVariants))
+		p := ar.ptr
 		switch v {
 		case 0, 3:
 			f = func() {
@@ -195,6 +197,12 @@ func runCell(domain string, cell int, input []byte) outcome {
 		}
 	}
 	msg, pcs := guard(f)
+	if ar != nil {
+		if before, after := ar.damage(); before+after > 0 && msg == "" {
+			return outcome{Kind: "out-of-bounds-write", Site: "dest-kind=" + ar.val.Kind().String(),
+				Msg: fmt.Sprintf("the decoder wrote outside the destination variable: %d bytes damaged before it, %d after it", before, after)}
+		}
+	}
 	switch {
 	case msg == "C04-SPIN-SENTINEL":
 		return outcome{Kind: "spin", Msg: fmt.Sprintf("the decoder asked the reader for more data more than %d times after io.EOF", spinCap(len(input))), Site: siteOf(pcs, true)}
@@ -204,6 +212,64 @@ func runCell(domain string, cell int, input []byte) outcome {
 		return outcome{Kind: "error"}
 	}
 	return outcome{Kind: "ok"}
+}
+
+// ---- destination arenas ----
+
+// The destination of an io evaluation lives between two guard areas of a known pattern. A decoder that
+// indexes its destination with a wire count writes there instead of into a neighbouring heap object, which
+// makes the write observable (and keeps the worker process intact for the evaluations that follow).
+const guardBytes = 2048
+
+type arena struct {
+	all reflect.Value
+	val reflect.Value
+	ptr interface{}
+	pre []byte
+	pst []byte
+}
+
+var arenas = map[int]*arena{}
+
+func arenaFor(d int) *arena {
+	a := arenas[d]
+	if a == nil {
+		gt := reflect.TypeOf([guardBytes]byte{})
+		st := reflect.StructOf([]reflect.StructField{{Name: "Pre", Type: gt}, {Name: "Val", Type: dests[d]}, {Name: "Post", Type: gt}})
+		all := reflect.New(st).Elem()
+		a = &arena{all: all, val: all.Field(1), ptr: all.Field(1).Addr().Interface(),
+			pre: all.Field(0).Slice(0, guardBytes).Bytes(), pst: all.Field(2).Slice(0, guardBytes).Bytes()}
+		a.fill()
+		arenas[d] = a
+	}
+	a.val.SetZero()
+	return a
+}
+
+func (a *arena) fill() {
+	for i := range a.pre {
+		a.pre[i], a.pst[i] = 0xA5, 0xA5
+	}
+}
+
+var guardPattern = bytes.Repeat([]byte{0xA5}, guardBytes)
+
+func (a *arena) damage() (before, after int) {
+	if bytes.Equal(a.pre, guardPattern) && bytes.Equal(a.pst, guardPattern) {
+		return 0, 0
+	}
+	for i := range a.pre {
+		if a.pre[i] != 0xA5 {
+			before++
+		}
+		if a.pst[i] != 0xA5 {
+			after++
+		}
+	}
+	if before+after > 0 {
+		a.fill()
+	}
+	return
 }
 
 // ---- allocation measurement ----
@@ -343,8 +409,8 @@ func hangSite() string {
 			common = fr
 		} else {
 			n := 0
-			for n < len(common) && n < len(fr) && common[n].fn == fr[n].fn && common[n].line == fr[n].line {
-				n++
+			for n < len(common) && n < len(fr) && common[n].fn == fr[n].fn {
+				n++ // the call site inside the live loop differs from sample to sample, the function does not
 			}
 			common = common[:n]
 		}
